@@ -75,3 +75,10 @@ Theorem every_reachable_state_is_consistent : forall ops,
   ContInv.cwf (st_cont (fold_left ContInv.apply_api ops Api.empty_state)).
 Proof. exact ContInv.reachable_states_well_formed. Qed.
 Print Assumptions every_reachable_state_is_consistent.
+
+(** the separator between trace id and name is the one regenerated from /repo on this run *)
+From WalModel Require Generated.
+From WalModel.proofs Require GeneratedTies.
+Theorem trace_separator_is_the_repositorys : Generated.scope_separator_gen = String "^"%char EmptyString.
+Proof. exact GeneratedTies.trace_separator_is_the_repositorys. Qed.
+Print Assumptions trace_separator_is_the_repositorys.
